@@ -330,6 +330,36 @@ harness! {
     }
 }
 
+harness! {
+    /// kind=bounded tier=quick bound="valid UTF-8 remainder<=6 bytes (room for a 4-byte character next to the delimiter), one-byte ASCII char delimiter; split, split_keep, split_terminator; flag clear"
+    #[kani::unwind(16)]
+    fn c14_split_once_fwd_ascii_delim_long(s) {
+        let hs = BStr::<6>::any(s);
+        let b = s.u8();
+        s.assume(b < 0x80);
+        let c = b as char;
+        let h = hs.as_str();
+        let p = mk(s, h);
+        step_split_fwd(s, p, c, 1);
+        cov!(s, h.len() == 6 && h.as_bytes()[0] >= 0xF0 && string::find(h, c) == Some(4), "C14.cover.split_fwd_delim_right_after_four_byte_char");
+    }
+}
+
+harness! {
+    /// kind=bounded tier=quick bound="valid UTF-8 remainder<=6 bytes, one-byte ASCII char delimiter; rsplit, rsplit_terminator; flag clear"
+    #[kani::unwind(16)]
+    fn c14_split_once_bwd_ascii_delim_long(s) {
+        let hs = BStr::<6>::any(s);
+        let b = s.u8();
+        s.assume(b < 0x80);
+        let c = b as char;
+        let h = hs.as_str();
+        let p = mk(s, h);
+        step_split_bwd(s, p, c);
+        cov!(s, h.len() == 6 && h.as_bytes()[2] >= 0xF0 && string::rfind(h, c) == Some(1), "C14.cover.split_bwd_delim_right_before_four_byte_char");
+    }
+}
+
 // ---------------------------------------------------------------------------
 // operations without a pattern
 
@@ -756,6 +786,28 @@ c14_protocol_char! {c14_protocol_split_char, Op::Split}
 c14_protocol_char! {c14_protocol_rsplit_char, Op::RSplit}
 c14_protocol_char! {c14_protocol_split_terminator_char, Op::SplitTerminator}
 c14_protocol_char! {c14_protocol_rsplit_terminator_char, Op::RSplitTerminator}
+
+macro_rules! c14_protocol_ascii_long {
+    ($name:ident, $op:expr) => {
+        harness! {
+            /// kind=bounded tier=quick bound="valid UTF-8 string<=6 bytes (room for a 4-byte character next to a delimiter), one-byte ASCII char delimiter, the operation repeated until it fails (<=7 pieces)"
+            #[kani::unwind(16)]
+            fn $name(s) {
+                let hs = BStr::<6>::any(s);
+                let b = s.u8();
+                s.assume(b < 0x80);
+                let c = b as char;
+                let db = [b];
+                let f = protocol::<_, char, 6, 4, 9>(s, $op, hs.as_str(), c, &db);
+                cov!(s, f.n == 2 && f.multibyte && f.hl == 6, "C14.cover.protocol_ascii_long_two_pieces_multibyte");
+            }
+        }
+    };
+}
+c14_protocol_ascii_long! {c14_protocol_split_ascii_long, Op::Split}
+c14_protocol_ascii_long! {c14_protocol_rsplit_ascii_long, Op::RSplit}
+c14_protocol_ascii_long! {c14_protocol_split_terminator_ascii_long, Op::SplitTerminator}
+c14_protocol_ascii_long! {c14_protocol_rsplit_terminator_ascii_long, Op::RSplitTerminator}
 
 macro_rules! c14_protocol_big {
     ($name:ident, $op:expr) => {
